@@ -442,13 +442,13 @@ func rulePTR1(c *Ctx) {
 // ---- SINK-1 ------------------------------------------------------------------
 
 var safeProducers = map[string]string{
-	"strconv.AppendInt":           "decimal digits and '-'",
-	"strconv.AppendUint":          "decimal digits",
-	"jsonwire.AppendFloat":        "digits, '.', 'e', '+', '-', or NaN/Infinity letters",
-	"json.appendDurationISO8601":  "ISO 8601 duration alphabet",
-	"json.appendDurationBase10":   "digits, '.', '-'",
-	"json.appendTimeUnix":         "digits, '.', '-'",
-	"time.(Duration).String":      "digits, '.', '-' and unit letters (h m s n and the micro sign, none of which ever needs escaping)",
+	"strconv.AppendInt":          "decimal digits and '-'",
+	"strconv.AppendUint":         "decimal digits",
+	"jsonwire.AppendFloat":       "digits, '.', 'e', '+', '-', or NaN/Infinity letters",
+	"json.appendDurationISO8601": "ISO 8601 duration alphabet",
+	"json.appendDurationBase10":  "digits, '.', '-'",
+	"json.appendTimeUnix":        "digits, '.', '-'",
+	"time.(Duration).String":     "digits, '.', '-' and unit letters (h m s n and the micro sign, none of which ever needs escaping)",
 }
 
 func ruleSINK1(c *Ctx) {
